@@ -16,7 +16,8 @@ Tie (hand-written model + correspondence, re-run on every check):
    with the model evaluated by vm_compute inside Coq (Z / Gaussian integers),
    and with the documented definition ``si_spec`` evaluated in Coq.
  * real banks (float): compute_full against an independent NumPy evaluation of
-   the definition (np.convolve), chunked against full, dtype rule.
+   the definition (np.convolve), chunked against full, dtype rule (also for
+   utterances of different floating dtypes following each other on ONE computer).
 """
 
 import itertools
@@ -914,6 +915,108 @@ def dtype_oracle(ctx, np):
             pass
 
 
+HIST_FLOATS = ["float64", "float32", "float16"]
+
+
+def history_signal(np, dtname, N, seed):
+    import random
+
+    r = random.Random(seed)
+    amp = 0.05 if dtname == "float16" else 1.0  # keeps float16 power features far from overflow
+    return np.array([amp * r.gauss(0, 1) for _ in range(N)], dtype=np.float64).astype(getattr(np, dtname))
+
+
+def check_dtype_history(np, cfgd, utts):
+    """ONE computer processes the utterances in order (each its own floating dtype, whole via
+    compute_full or as chunks + finalize).  Every utterance must be accepted, leave the computer
+    idle, and give that utterance's dtype and - to that dtype's precision - the values a fresh
+    computer gives for the same calls.  -> (failure texts, non-trivial)"""
+    comp = build_real_computer(cfgd)
+
+    def feed(c, x, parts):
+        if parts is None:
+            return c.compute_full(x)
+        outs, pos = [], 0
+        for m in parts:
+            outs.append(c.compute_chunk(x[pos:pos + m]))
+            pos += m
+        outs.append(c.finalize())
+        return np.concatenate(outs)
+
+    bad, nt, seen = [], False, []
+    for k, u in enumerate(utts):
+        dt = np.dtype(getattr(np, u["dtype"]))
+        x = history_signal(np, u["dtype"], u["N"], u["seed"])
+        how = "compute_full" if u["parts"] is None else "%d chunks + finalize" % len(u["parts"])
+        what = "utterance #%d (%s, %d samples, %s) on a computer that already processed %s" % (
+            k + 1, u["dtype"], u["N"], how, ", ".join(seen) if seen else "nothing")
+        seen.append("%s x %d" % (u["dtype"], u["N"]))
+        try:
+            got = feed(comp, x, u["parts"])
+        except Exception as e:  # noqa
+            bad.append("%s is rejected: %s: %s%s" % (what, type(e).__name__, e,
+                                                     " (and the computer is left started)" if comp.started else ""))
+            break
+        if comp.started:
+            bad.append("%s: the computer is still started after the utterance was finalized" % what)
+            break
+        try:
+            ref = feed(build_real_computer(cfgd), x, u["parts"])
+        except Exception as e:  # noqa
+            bad.append("a fresh computer rejects a %s utterance of %d samples (%s): %s: %s"
+                       % (u["dtype"], u["N"], how, type(e).__name__, e))
+            break
+        if got.dtype != dt:
+            bad.append("%s: result has dtype %s" % (what, got.dtype))
+        if got.shape != ref.shape:
+            bad.append("%s: result has shape %r, a fresh computer gives %r" % (what, got.shape, ref.shape))
+        elif got.size:
+            tol = max(1e-9, 8 * float(np.finfo(dt).eps))
+            g, r = np.asarray(got, np.float64), np.asarray(ref, np.float64)
+            fin = np.isfinite(r)
+            if not np.all(np.abs(g[fin] - r[fin]) <= tol * (1 + np.abs(r[fin]))):
+                bad.append("%s: values differ from a fresh computer's beyond %s precision (max %g)"
+                           % (what, u["dtype"], float(np.max(np.abs(g[fin] - r[fin])))))
+        if k and len(got) and u["dtype"] != utts[k - 1]["dtype"]:
+            nt = True
+    return bad, nt
+
+
+def dtype_history_oracle(ctx, np, nconf):
+    """'Input of any floating dtype is accepted and the result has that dtype' holds for every
+    utterance a computer processes, not only its first: sequences of utterances of different
+    floating dtypes on ONE computer (whole and chunked)."""
+    rng = ctx.rng
+    done = tries = 0
+    while done < nconf and tries < 20 * nconf:
+        tries += 1
+        comp, cfgd = make_real_computer(rng)
+        if not comp_pre(comp, cfgd):
+            continue
+        done += 1
+        S, M = comp.frame_shift, comp._max_support
+        V = comp._dft_size - M + 1
+        utts, prev = [], None
+        for N in signal_lengths(rng, S, comp.frame_length, V, rng.randint(2, 4)):
+            if rng.random() < 0.6:
+                N = max(N, rng.choice([S, 2 * S + S // 2, comp.frame_length, V + 1]))  # mostly utterances with frames
+            dtname = rng.choice([d for d in HIST_FLOATS if d != prev] if rng.random() < 0.8 else HIST_FLOATS)
+            prev = dtname
+            # (at least one compute_chunk call per utterance: without one the computer never sees the dtype)
+            parts = None if rng.random() < 0.5 else (gen_chunking(rng, N, S, V) or [0])
+            utts.append(dict(dtype=dtname, N=N, seed=rng.randint(0, 1 << 30), parts=parts))
+            ctx.count("dtype-history:%s:%s" % (dtname, "full" if parts is None else "chunked"))
+        ctx.count("dtype-history:utterances", len(utts))
+        bad, nt = check_dtype_history(np, cfgd, utts)
+        ctx.case(dict(kind="dtype-history", cfg=cfgd,
+                      utts=[(u["dtype"], u["N"], u["parts"]) for u in utts]), nontrivial=nt)
+        for msg in bad[:1]:
+            ctx.fail(msg, dict(kind="dtype-history", config=cfgd, utterances=utts, frame_shift=S, max_support=M,
+                               translation=comp._translation, dft_size=comp._dft_size,
+                               how="harness/c03.py:check_dtype_history(np, config, utterances); the signal of an "
+                                   "utterance is history_signal(np, dtype, N, seed)"), kind="impl")
+
+
 def replay(ctx, rp):
     """./check C03 --replay <file>: re-run exactly the recorded case."""
     C.ensure_impl_path()
@@ -940,6 +1043,8 @@ def replay(ctx, rp):
         bad = check_chunking(np, r["config"], r["signal"], r["dtype"], r["chunk_lengths"], r["chunk_size"])[0]
     elif kind == "dtype":
         bad = check_dtype(np, r["config"], r["dtype"], r["N"], r["seed"])
+    elif kind == "dtype-history":
+        bad = check_dtype_history(np, r["config"], r["utterances"])[0]
     else:
         print("nothing to re-run on the implementation:", r)
         return 0
@@ -974,12 +1079,14 @@ def run(ctx):
     definition_oracle(ctx, np, ctx.scale(200, 1500))
     chunk_oracle(ctx, np, ctx.scale(100, 800))
     dtype_oracle(ctx, np)
+    dtype_history_oracle(ctx, np, ctx.scale(150, 1000))
     ctx.cov["rule"] = (
         "integer-coded cases: one computer built by the real constructor on a stub bank (integer impulse "
         "responses, real or complex) and stub window, 1-3 utterances (compute_full / random chunk stream + "
         "finalize / frame_by_frame_calculation, floating and rejected dtypes) compared exactly with the Coq "
         "model (geometry, prepared taps, every outcome) and with si_spec evaluated in Coq; float cases: real "
-        "banks against an independent np.convolve evaluation of the definition and chunked against full.  "
+        "banks against an independent np.convolve evaluation of the definition and chunked against full; "
+        "sequences of 2-4 utterances of different floating dtypes on ONE computer against a fresh computer.  "
         "distinct = distinct (configuration, operation shapes); non-trivial = a stream in which a non-final "
         "compute_chunk call AND finalize both returned frames (compute_full / fbf: >= 2 frames; definition "
         "oracle: >= 1 frame)"
